@@ -1010,6 +1010,38 @@ private theorem attrsOk_compute {S : Schema} {n : Node} (h : attrsOk S n = true)
     | error e => simp [hc] at h1
     | ok a' => simp [hc] at h1; rw [h1]
 
+/-- the value `AttrStep.invert` / `DocAttrStep.invert` read (`attrs.get(name)`, `None` = `"null"` for an
+    attribute the node does not carry), and what setting it again does to a canonically built list -/
+theorem invert_attr_value (ds : List AttrDecl) (a : Attrs) (name value : String)
+    (hcomp : computeAttrs ds a = .ok a) :
+    ∃ v, (match a.find? (·.1 == name) with | some (_, v) => v | none => "null") = v ∧
+      ∀ a1, computeAttrs ds (a.filter (·.1 != name) ++ [(name, value)]) = .ok a1 →
+        computeAttrs ds (a1.filter (·.1 != name) ++ [(name, v)]) = .ok a := by
+  cases hf : a.find? (·.1 == name) with
+  | none =>
+    exact ⟨"null", rfl, fun a1 h => computeAttrs_undo_none ds a a1 name value "null" hcomp (by simp [lk, hf]) h⟩
+  | some q =>
+    obtain ⟨nm, v⟩ := q
+    exact ⟨v, rfl, fun a1 h => computeAttrs_undo ds a a1 name value v hcomp (by simp [lk, hf]) h⟩
+
+/-- the inverse of an attribute step, as a value -/
+theorem invert_attr_eq (S : Schema) (doc n : Node) (pos : Nat) (name value : String)
+    (hn1 : doc.nodeAt pos = .ok (some n)) :
+    S.invert (.attr pos name value) doc =
+      .ok (.attr pos name (match n.attrs.find? (·.1 == name) with | some (_, v) => v | none => "null")) := by
+  simp only [Schema.invert, hn1]
+  cases hf : n.attrs.find? (·.1 == name) with
+  | none => rfl
+  | some q => obtain ⟨nm, v⟩ := q; rfl
+
+theorem invert_docAttr_eq (S : Schema) (doc : Node) (name value : String) :
+    S.invert (.docAttr name value) doc =
+      .ok (.docAttr name (match doc.attrs.find? (·.1 == name) with | some (_, v) => v | none => "null")) := by
+  simp only [Schema.invert]
+  cases hf : doc.attrs.find? (·.1 == name) with
+  | none => rfl
+  | some q => obtain ⟨nm, v⟩ := q; rfl
+
 /-- what the hypotheses on the document give for the addressed node -/
 private theorem node_facts (S : Schema) (doc n : Node) (pos : Nat)
     (hv : S.checkNode doc = true) (ha : attrsOk S doc = true)
@@ -1029,22 +1061,19 @@ theorem attr_undo_partial (S : Schema) (doc doc' doc'' : Node) (pos : Nat) (name
   obtain ⟨n, u1, hn1, hu1, hr1⟩ := apply_attr_parts S doc doc' pos name value h1
   have hnt := (recreate_spec S n u1 _ _ hu1).1
   obtain ⟨hcan, hcomp⟩ := node_facts S doc n pos hv ha hn1 hnt
-  simp only [Schema.invert, hn1] at hi
-  cases hf : n.attrs.find? (·.1 == name) with
-  | none => simp [hf] at hi
-  | some q =>
-    obtain ⟨nm, v⟩ := q
-    simp only [hf, Except.ok.injEq] at hi
-    subst hi
-    have hlk : lk n.attrs name = some v := by simp [lk, hf]
-    obtain ⟨n2, u2, hn2, hu2, hr2⟩ := apply_attr_parts S doc' doc'' pos name v h2
-    refine node_undo S doc doc' doc'' n n2 u1 u2 pos _ _ _ _ hn hn1 hu1 hr1 hn2 hu2 hr2 ?_
-    intro a1 a2 hc1 hat2 hmk2 hc2
-    rw [hat2] at hc2
-    rw [hmk2, setFrom_idem_of_canonical S n.marks hcan]
-    have := computeAttrs_undo _ n.attrs a1 name value v hcomp hlk hc1
-    rw [this] at hc2
-    exact ⟨(Except.ok.inj hc2).symm, setFrom_idem_of_canonical S n.marks hcan⟩
+  rw [invert_attr_eq S doc n pos name value hn1] at hi
+  obtain ⟨v, hv', hund⟩ := invert_attr_value _ n.attrs name value hcomp
+  rw [hv'] at hi
+  simp only [Except.ok.injEq] at hi
+  subst hi
+  obtain ⟨n2, u2, hn2, hu2, hr2⟩ := apply_attr_parts S doc' doc'' pos name v h2
+  refine node_undo S doc doc' doc'' n n2 u1 u2 pos _ _ _ _ hn hn1 hu1 hr1 hn2 hu2 hr2 ?_
+  intro a1 a2 hc1 hat2 hmk2 hc2
+  rw [hat2] at hc2
+  rw [hmk2, setFrom_idem_of_canonical S n.marks hcan]
+  have := hund a1 hc1
+  rw [this] at hc2
+  exact ⟨(Except.ok.inj hc2).symm, setFrom_idem_of_canonical S n.marks hcan⟩
 
 -- STATEMENT CHANGED: two hypotheses added (`hty`, `hsym`); as originally stated the theorem is false
 -- in the model (and upstream).  Counterexamples (checked with `#eval`, all other hypotheses hold; one
@@ -1170,18 +1199,17 @@ theorem docAttr_undo (S : Schema) (t : TypeId) (a : Attrs) (m : Marks) (kids : L
   | ok a1 =>
     simp only [hc1, Except.map, Except.ok.injEq] at h1
     subst h1
-    simp only [Schema.invert, Node.attrs] at hi
-    cases hf : a.find? (·.1 == name) with
-    | none => simp [hf] at hi
-    | some q =>
-      obtain ⟨nm, v⟩ := q
-      simp only [hf, Except.ok.injEq] at hi
-      subst hi
-      have hlk : lk a name = some v := by simp [lk, hf]
-      have := computeAttrs_undo _ a a1 name value v ha hlk hc1
-      refine ⟨.elem t a (setFrom (setFrom m)) kids, ?_, rfl, ?_⟩
-      · simp only [Schema.apply, this, Except.map]
-      · simp only [Node.marks, hm]
+    rw [invert_docAttr_eq] at hi
+    simp only [Node.attrs] at hi
+    obtain ⟨v, hv', hund⟩ := invert_attr_value _ a name value ha
+    rw [hv'] at hi
+    simp only [Except.ok.injEq] at hi
+    subst hi
+    have _ := hdecl
+    have := hund a1 hc1
+    refine ⟨.elem t a (setFrom (setFrom m)) kids, ?_, rfl, ?_⟩
+    · simp only [Schema.apply, this, Except.map]
+    · simp only [Node.marks, hm]
 
 -- STATEMENT CHANGED: the first conjunct got the extra premise `∀ o ∈ ms, o.ty = m.ty → o = m`
 -- (no other mark of `m`'s type in the set).  Counterexample to the original (`#eval`): mark types
@@ -1292,18 +1320,15 @@ theorem attr_undo (S : Schema) (doc doc' : Node) (pos : Nat) (name value : Strin
   simp only [Node.kids] at hn
   obtain ⟨rfl, hv', hn', hat2, _, hnt2, a1, hca1, e1, e2, e3⟩ :=
     after_nodeStep S ty a m K doc' n u1 pos _ _ hn hv hn1 hcan hu1 hr1
-  simp only [Schema.invert, hn1] at hi
-  cases hf : n.attrs.find? (·.1 == name) with
-  | none => simp [hf] at hi
-  | some q =>
-    obtain ⟨nm, v⟩ := q
-    simp only [hf, Except.ok.injEq] at hi
-    subst hi
-    have hlk : lk n.attrs name = some v := by simp [lk, hf]
-    have hc2 := computeAttrs_undo _ n.attrs a1 name value v hcomp hlk hca1
-    rw [← e1, ← e2] at hc2
-    obtain ⟨u2, hu2⟩ := recreate_total S (u1.withKids n.kids) _ _ (u1.withKids n.kids).marks hnt2 hc2
-    exact ⟨_, attrStep_applies S ty a m _ pos name v _ u2 hv' hn' hat2 hu2⟩
+  rw [invert_attr_eq S _ n pos name value hn1] at hi
+  obtain ⟨v, hvv, hund⟩ := invert_attr_value _ n.attrs name value hcomp
+  rw [hvv] at hi
+  simp only [Except.ok.injEq] at hi
+  subst hi
+  have hc2 := hund a1 hca1
+  rw [← e1, ← e2] at hc2
+  obtain ⟨u2, hu2⟩ := recreate_total S (u1.withKids n.kids) _ _ (u1.withKids n.kids).marks hnt2 hc2
+  exact ⟨_, attrStep_applies S ty a m _ pos name v _ u2 hv' hn' hat2 hu2⟩
 
 /-- **exact undo of node-mark steps that displace at most one mark: the inverse applies and restores
     the document** (hypotheses of `nodeMark_undo_partial` minus "the inverse applies") -/
@@ -1787,16 +1812,14 @@ theorem docAttr_undo_exact (S : Schema) (t : TypeId) (a : Attrs) (m : Marks) (ki
   | ok a1 =>
     simp only [hc1, Except.map, Except.ok.injEq] at h1
     subst h1
-    simp only [Schema.invert, Node.attrs] at hi
-    cases hf : a.find? (·.1 == name) with
-    | none => simp [hf] at hi
-    | some q =>
-      obtain ⟨nm, v⟩ := q
-      simp only [hf, Except.ok.injEq] at hi
-      subst hi
-      have hlk : lk a name = some v := by simp [lk, hf]
-      have := computeAttrs_undo _ a a1 name value v ha hlk hc1
-      simp only [Schema.apply, this, Except.map, hm]
+    rw [invert_docAttr_eq] at hi
+    simp only [Node.attrs] at hi
+    obtain ⟨v, hv', hund⟩ := invert_attr_value _ a name value ha
+    rw [hv'] at hi
+    simp only [Except.ok.injEq] at hi
+    subst hi
+    have := hund a1 hc1
+    simp only [Schema.apply, this, Except.map, hm]
 
 /-- the fit guard holds whenever the inverse gets built at all … -/
 theorem invert_ok_of_fits (S : Schema) (d : Node) (f t gf gt : Nat) (sl : Slice) (ins : Nat) (b : Bool)
@@ -1855,8 +1878,8 @@ def FamilyInv (S : Schema) (d : Node) : Prop := S.checkNode d = true ∧ fnorm d
       whose gap is not clean but fits back (measured by the tie);
     * add-mark / remove-mark: the exact guard of the naive inverse (`addMarkUndoable` /
       `removeMarkUndoable`; the planners' steps satisfy it: `planGuard_family`);
-    * attr / doc-attr: every node carries its attributes as `compute_attrs` builds them (`attrsOk`), and the
-      node carries the named attribute (its type declares it: the property's scope for attribute steps);
+    * attr / doc-attr: every node carries its attributes as `compute_attrs` builds them (`attrsOk`); an
+      attribute the node's type does not declare is included (the step and its inverse are no-ops);
     * node marks: `attrsOk` and the three guards of `nodeMark_undo` (finding C04-node-mark-inverse). -/
 def FamilyGuard (S : Schema) (s : Step) (d d' : Node) : Prop :=
   match s with
@@ -1871,9 +1894,8 @@ def FamilyGuard (S : Schema) (s : Step) (d d' : Node) : Prop :=
     s.undoAligned d'
   | .addMark f t m => addMarkUndoable S d f t m = true ∧ s.undoAligned d'
   | .removeMark f t m => removeMarkUndoable S d f t m = true ∧ s.undoAligned d'
-  | .attr pos name _ =>
-    attrsOk S d = true ∧ (∀ n, d.nodeAt pos = .ok (some n) → (n.attrs.find? (·.1 == name)).isSome = true)
-  | .docAttr name _ => attrsOk S d = true ∧ (d.attrs.find? (·.1 == name)).isSome = true
+  | .attr _ _ _ => attrsOk S d = true
+  | .docAttr _ _ => attrsOk S d = true
   | .addNodeMark pos m =>
     attrsOk S d = true ∧
     (∀ n, d.nodeAt pos = .ok (some n) → n.marks.length ≤ (m.addToSet S n.marks).length) ∧
@@ -1928,22 +1950,18 @@ theorem family_step (S : Schema) (htr : compatTransB S = true) (hts : TextLoop S
     have k := removeMark_keepsAll S d d' f t m h
     exact ⟨removeMark_stepUndoes S hts d d' f t m hv hn h hg.1 hg.2, k.valid hts.stable hv, k.norm hn⟩
   | attr pos name value =>
-    obtain ⟨ha, hcar⟩ := hg
-    obtain ⟨inv, hi⟩ := attr_invert_ok S d d' pos name value h hcar
+    have ha : attrsOk S d = true := hg
+    obtain ⟨inv, hi⟩ := attr_invert_ok S d d' pos name value h
     obtain ⟨n, u, _, hu, hr⟩ := apply_attr_parts S d d' pos name value h
     exact ⟨⟨inv, hi, attr_undo S d d' pos name value inv hn hv ha h hi⟩,
       C01.apply_valid S (.attr pos name value) d d' hv trivial h, nodeStep_norm S d d' n u pos _ _ hn hu hr⟩
   | docAttr name value =>
-    obtain ⟨ha, hcar⟩ := hg
+    have ha : attrsOk S d = true := hg
     cases d with
     | text _ _ => simp [Schema.apply] at h
     | leaf _ _ _ => simp [Schema.apply] at h
     | elem t a m kids =>
-      obtain ⟨inv, hi⟩ : ∃ inv, S.invert (.docAttr name value) (.elem t a m kids) = .ok inv := by
-        simp only [Schema.invert, Node.attrs] at hcar ⊢
-        cases hf : a.find? (·.1 == name) with
-        | none => simp [hf] at hcar
-        | some q => exact ⟨_, rfl⟩
+      obtain ⟨inv, hi⟩ := docAttr_invert_ok S (.elem t a m kids) name value
       have hca : computeAttrs (S.nodeType t).attrs a = .ok a := by
         have := attrsOk_compute (n := .elem t a m kids) ha rfl
         simpa [Node.headTok, Tok.ty, Node.attrs] using this
@@ -2011,13 +2029,11 @@ theorem family_history_undo_run (S : Schema) (htr : compatTransB S = true) (hts 
     looking by `Node.slice(p, p)`, the forward step applies, and `Slice.remove_between` then has to cut the
     text there and raises (`removeBetween_misaligned_fails`, Proofs/InvertOkAround.lean; on the real code
     `ReplaceAroundStep(1, 3, 2, 2, Slice.empty, 0).invert(doc(p("😀")))` raises `UnicodeDecodeError`).
-    Attribute steps: the node carries the attribute (the property's scope). -/
+    Attribute steps: `attrs.get(name)` never raises. -/
 theorem invert_ok_of_apply (S : Schema) (s : Step) (d d' : Node) (hn : fnorm d.kids = true)
     (h : S.apply s d = .ok d')
     (hs : match s with
       | .replaceAround f t gf gt _ _ _ => (f ≤ gf ∧ gf ≤ gt ∧ gt ≤ t) ∧ (gf < gt ∨ alignedAt d.kids gf = true)
-      | .attr pos name _ => ∀ n, d.nodeAt pos = .ok (some n) → (n.attrs.find? (·.1 == name)).isSome = true
-      | .docAttr name _ => (d.attrs.find? (·.1 == name)).isSome = true
       | _ => True) :
     ∃ inv, S.invert s d = .ok inv := by
   cases s with
@@ -2027,12 +2043,8 @@ theorem invert_ok_of_apply (S : Schema) (s : Step) (d d' : Node) (hn : fnorm d.k
   | removeMark f t m => exact ⟨_, rfl⟩
   | addNodeMark pos m => exact invert_ok_addNodeMark S d d' pos m h
   | removeNodeMark pos m => exact invert_ok_removeNodeMark S d d' pos m h
-  | attr pos name value => exact attr_invert_ok S d d' pos name value h hs
-  | docAttr name value =>
-    simp only [Schema.invert] at hs ⊢
-    cases hf : d.attrs.find? (·.1 == name) with
-    | none => simp [hf] at hs
-    | some q => exact ⟨_, rfl⟩
+  | attr pos name value => exact attr_invert_ok S d d' pos name value h
+  | docAttr name value => exact docAttr_invert_ok S d name value
 
 /-! ### Histories of *operations* (work package `wk-c04ops`)
 
